@@ -1318,3 +1318,698 @@ def kind_text(k: tuple) -> str:
     if k[0] == 'const':
         return 'the constant %r' % (k[1],)
     return 'raises %s' % k[1]
+
+
+# ---------------------------------------------------------------------------
+# concrete evaluation of a small pure subset over a finite sample domain
+# (C06 R14: header mappings; C09 R13: the Forwarded parser)
+# ---------------------------------------------------------------------------
+#
+# A tiny interpreter over the AST: nothing of the analysed package is imported
+# or executed.  Values are Python str/bytes/int/bool/None/tuple/list/dict/
+# frozenset, compiled `re` patterns and matches, and `CObj` stand-ins for
+# instances of package classes.  Only operations that are pure on those values
+# are carried out (the methods of the builtin value types, a frozen table of
+# builtins, `re.compile`); package functions are interpreted, not called.
+# Anything else -- an unknown statement kind, a call the tables do not name, an
+# attribute the sample object does not have -- is `Unreadable` (UnknownIdiom):
+# the evaluation never guesses.
+
+class CRaise(Exception):
+    """The interpreted code raised (or a primitive failed with) this exception class."""
+
+    def __init__(self, cls: str, node=None):
+        Exception.__init__(self, cls)
+        self.cls = cls
+        self.node = node
+
+
+class _CReturn(Exception):
+    def __init__(self, value):
+        Exception.__init__(self)
+        self.value = value
+
+
+class _CContinue(Exception):
+    pass
+
+
+class _CBreak(Exception):
+    pass
+
+
+class CObj:
+    """Stand-in for an instance of a package class (attributes by name)."""
+
+    __slots__ = ('cq', 'attrs')
+
+    def __init__(self, cq: str, attrs: Optional[Dict[str, object]] = None):
+        self.cq = cq
+        self.attrs = dict(attrs or {})
+
+    def __repr__(self):
+        return '<%s %r>' % (self.cq.rsplit('.', 1)[-1], self.attrs)
+
+
+class _CBound:
+    __slots__ = ('obj', 'func')
+
+    def __init__(self, obj, func):
+        self.obj, self.func = obj, func
+
+
+def _c_stdlib_consts():
+    import string
+    return {'string.' + n: getattr(string, n) for n in ('digits', 'ascii_letters', 'ascii_lowercase', 'ascii_uppercase', 'hexdigits',
+                                                       'octdigits', 'punctuation', 'whitespace', 'printable')}
+
+
+_C_STDLIB_CONSTS = _c_stdlib_consts()
+# builtins that are pure on the value domain
+_C_BUILTINS = {n: getattr(__import__('builtins'), n) for n in (
+    'len', 'str', 'bytes', 'int', 'bool', 'chr', 'ord', 'tuple', 'list', 'dict', 'set', 'frozenset', 'range', 'sorted', 'reversed',
+    'enumerate', 'zip', 'min', 'max', 'any', 'all', 'sum', 'abs', 'repr')}
+_C_LIST_METHODS = ('append', 'extend', 'insert', 'pop', 'index', 'count', 'copy', 'reverse', 'clear', 'remove')
+_C_DICT_METHODS = ('get', 'items', 'keys', 'values', 'setdefault', 'pop', 'update', 'copy', 'clear')
+_C_SET_METHODS = ('add', 'discard', 'union', 'intersection', 'difference', 'issubset', 'issuperset', 'copy')
+_C_PATTERN_METHODS = ('match', 'fullmatch', 'search', 'sub', 'subn', 'findall', 'finditer', 'split')
+_C_MATCH_METHODS = ('group', 'groups', 'groupdict', 'start', 'end', 'span')
+_C_PRIMITIVE_ERRORS = (IndexError, KeyError, ValueError, TypeError, AttributeError, UnicodeError, ZeroDivisionError, OverflowError, StopIteration)
+_C_BINOPS = {ast.Add: lambda a, b: a + b, ast.Sub: lambda a, b: a - b, ast.Mult: lambda a, b: a * b, ast.Mod: lambda a, b: a % b,
+             ast.FloorDiv: lambda a, b: a // b, ast.BitOr: lambda a, b: a | b, ast.BitAnd: lambda a, b: a & b}
+_C_CMPOPS = {ast.Eq: lambda a, b: a == b, ast.NotEq: lambda a, b: a != b, ast.Lt: lambda a, b: a < b, ast.LtE: lambda a, b: a <= b,
+             ast.Gt: lambda a, b: a > b, ast.GtE: lambda a, b: a >= b, ast.Is: lambda a, b: a is b, ast.IsNot: lambda a, b: a is not b,
+             ast.In: lambda a, b: a in b, ast.NotIn: lambda a, b: a not in b}
+_C_VALUE_TYPES = (str, bytes, int, bool, type(None), tuple, list, dict, frozenset, set, range)
+
+
+class ConcreteEval:
+    """Interpret package code on concrete sample values.
+
+    trace: [('test', node, outcome, func qual) | ('assign', stmt, value, func qual) | ('iter', loop/comprehension node, item, func qual)
+            | ('setattr', stmt, (obj, name, value), func qual)] in execution order."""
+
+    FUEL = 200000
+
+    def __init__(self, p: Project):
+        import re as _re
+        self.p = p
+        self.re = _re
+        self.fuel = self.FUEL
+        self.trace: List[tuple] = []
+        self._consts: Dict[str, object] = {}
+        self._const_active: Set[str] = set()
+        self.depth = 0
+
+    # ---- helpers
+    def bad(self, f: Optional[Func], what: str, node=None):
+        raise Unreadable('%s: concrete evaluation cannot read %s%s' % (f.qual if f is not None else '<module>', what,
+                                                                       (': ' + short(node, 80)) if node is not None else ''))
+
+    def tick(self, f):
+        self.fuel -= 1
+        if self.fuel <= 0:
+            self.bad(f, 'a computation this long (step budget exhausted)')
+
+    def prim(self, f, node, fn, *args, **kw):
+        """carry out a primitive operation of the value domain; a failure is an exception of the interpreted program"""
+        try:
+            return fn(*args, **kw)
+        except _C_PRIMITIVE_ERRORS as e:
+            raise CRaise(type(e).__name__, node)
+        except self.re.error:
+            self.bad(f, 'a regular expression that does not compile', node)
+
+    def truth(self, f, v, node=None) -> bool:
+        if isinstance(v, CObj):
+            if self.p.lookup_method(v.cq, '__bool__') is not None or self.p.lookup_method(v.cq, '__len__') is not None:
+                self.bad(f, 'the truth value of an object with __bool__/__len__', node)
+            return True
+        if isinstance(v, _C_VALUE_TYPES) or isinstance(v, (self.re.Pattern, self.re.Match)):
+            return bool(v)
+        self.bad(f, 'the truth value of %s' % type(v).__name__, node)
+
+    # ---- module-level constants
+    def module_const(self, qual: str, f=None, node=None):
+        if qual in self._consts:
+            return self._consts[qual]
+        if qual in _C_STDLIB_CONSTS:
+            return _C_STDLIB_CONSTS[qual]
+        head, _, tail = qual.rpartition('.')
+        m = self.p.modules.get(head)
+        if m is None or tail not in m.consts:
+            self.bad(f, 'the value of %s' % qual, node)
+        if qual in self._const_active:
+            self.bad(f, 'the recursively defined constant %s' % qual, node)
+        self._const_active.add(qual)
+        try:
+            v = self.ev(m.consts[tail], {}, None, m)
+        finally:
+            self._const_active.discard(qual)
+        self._consts[qual] = v
+        return v
+
+    # ---- names and attributes
+    def name(self, e: ast.Name, env, f, m):
+        if e.id in env:
+            return env[e.id]
+        if f is not None and e.id in _locals_of(f):
+            raise CRaise('UnboundLocalError', e)
+        q = self.p.resolve_expr(m, e, f)
+        if q is None:
+            self.bad(f, 'the free name %s' % e.id, e)
+        return self.qualified(q, f, e)
+
+    def qualified(self, q: str, f, node):
+        if q in self.p.funcs:
+            return self.p.funcs[q]
+        if q in self.p.classes:
+            return self.p.classes[q]
+        if q.startswith('builtins.'):
+            b = q[len('builtins.'):]
+            if b in _C_BUILTINS:
+                return _C_BUILTINS[b]
+            if b in ('setattr', 'getattr', 'hasattr', 'isinstance'):
+                return ('builtin', b)
+            if b in ('True', 'False', 'None'):
+                return {'True': True, 'False': False, 'None': None}[b]
+            self.bad(f, 'the builtin %s' % b, node)
+        if q == 're.compile':
+            return ('builtin', 're.compile')
+        return self.module_const(q, f, node)
+
+    def static_qual(self, e: ast.Attribute, env, f, m) -> Optional[str]:
+        """qualified name of an attribute chain that denotes a module-level thing (function, class, constant, tabled
+        stdlib name); None when it is an attribute / method of a value."""
+        ch = attr_chain(e)
+        if ch is None or ch[0] in env or (f is not None and ch[0] in _locals_of(f)):
+            return None
+        q = self.p.resolve_expr(m, e, f)
+        if q is None:
+            return None
+        if q in self.p.funcs or q in self.p.classes or q in _C_STDLIB_CONSTS or q == 're.compile':
+            return q
+        head, _, tail = q.rpartition('.')
+        if head in self.p.modules and tail in self.p.modules[head].consts:
+            return q
+        if head in self.p.classes:
+            return None
+        return None
+
+    def getattr(self, obj, name: str, f, node):
+        if isinstance(obj, CObj):
+            meth = self.p.lookup_method(obj.cq, name)
+            if meth is not None and meth.is_property():
+                return self.call_func(meth, [obj], {}, node)
+            if name in obj.attrs:
+                return obj.attrs[name]
+            if meth is not None:
+                if meth.decorators:
+                    self.bad(f, 'the decorated method %s' % meth.qual, node)
+                return _CBound(obj, meth)
+            owner, expr = self.p.lookup_class_attr(obj.cq, name)
+            if owner is not None:
+                return self.ev(expr, {}, None, owner.module)
+            raise CRaise('AttributeError', node)
+        self.bad(f, 'attribute %s of %s' % (name, type(obj).__name__), node)
+
+    # ---- expressions
+    def ev(self, e, env, f, m=None):
+        self.tick(f)
+        m = m if m is not None else f.module
+        E = lambda x: self.ev(x, env, f, m)  # noqa: E731
+        if isinstance(e, ast.Constant):
+            return e.value
+        if isinstance(e, ast.Name):
+            return self.name(e, env, f, m)
+        if isinstance(e, ast.Attribute):
+            q = self.static_qual(e, env, f, m)
+            if q is not None:
+                return self.qualified(q, f, e)
+            return self.getattr(E(e.value), e.attr, f, e)
+        if isinstance(e, (ast.Tuple, ast.List, ast.Set)):
+            if any(isinstance(x, ast.Starred) for x in e.elts):
+                self.bad(f, 'a starred display', e)
+            vals = [E(x) for x in e.elts]
+            return tuple(vals) if isinstance(e, ast.Tuple) else list(vals) if isinstance(e, ast.List) else self.prim(f, e, set, vals)
+        if isinstance(e, ast.Dict):
+            if any(k is None for k in e.keys):
+                self.bad(f, 'a dict display with **', e)
+            out = {}
+            for k, v in zip(e.keys, e.values):
+                kk = E(k)
+                self.prim(f, e, out.__setitem__, kk, E(v))
+            return out
+        if isinstance(e, ast.JoinedStr):
+            parts = []
+            for v in e.values:
+                if isinstance(v, ast.Constant):
+                    parts.append(v.value)
+                elif isinstance(v, ast.FormattedValue) and v.format_spec is None and v.conversion in (-1, 115, 114):
+                    x = E(v.value)
+                    if not isinstance(x, (str, int, bool)):
+                        self.bad(f, 'an f-string over %s' % type(x).__name__, e)
+                    parts.append(repr(x) if v.conversion == 114 else str(x))
+                else:
+                    self.bad(f, 'an f-string with a format spec', e)
+            return ''.join(parts)
+        if isinstance(e, ast.BoolOp):
+            stop = isinstance(e.op, ast.Or)
+            v = None
+            for x in e.values:
+                v = E(x)
+                t = self.truth(f, v, x)
+                self.trace.append(('test', x, t, f.qual if f is not None else ''))
+                if t is stop:
+                    return v
+            return v
+        if isinstance(e, ast.UnaryOp):
+            v = E(e.operand)
+            if isinstance(e.op, ast.Not):
+                return not self.truth(f, v, e.operand)
+            if isinstance(e.op, ast.USub) and isinstance(v, int):
+                return -v
+            self.bad(f, 'the unary operator', e)
+        if isinstance(e, ast.BinOp):
+            op = _C_BINOPS.get(type(e.op))
+            a, b = E(e.left), E(e.right)
+            if op is None or not (isinstance(a, _C_VALUE_TYPES) and isinstance(b, _C_VALUE_TYPES)):
+                self.bad(f, 'the binary operation', e)
+            if isinstance(e.op, ast.Mult) and (isinstance(a, int) and isinstance(b, int) and abs(a) + abs(b) > 10 ** 6
+                                               or not (isinstance(a, int) and isinstance(b, int)) and max(x for x in (a, b) if isinstance(x, int)) > 4096):
+                self.bad(f, 'a repetition this large', e)
+            return self.prim(f, e, op, a, b)
+        if isinstance(e, ast.Compare):
+            left = E(e.left)
+            for o, c in zip(e.ops, e.comparators):
+                right = E(c)
+                fn = _C_CMPOPS.get(type(o))
+                if fn is None:
+                    self.bad(f, 'the comparison', e)
+                if isinstance(left, CObj) or isinstance(right, CObj):
+                    if not isinstance(o, (ast.Is, ast.IsNot)):
+                        self.bad(f, 'a comparison of objects', e)
+                if not self.prim(f, e, fn, left, right):
+                    return False
+                left = right
+            return True
+        if isinstance(e, ast.IfExp):
+            t = self.truth(f, E(e.test), e.test)
+            self.trace.append(('test', e.test, t, f.qual if f is not None else ''))
+            return E(e.body if t else e.orelse)
+        if isinstance(e, ast.Subscript):
+            base = E(e.value)
+            if isinstance(e.slice, ast.Slice):
+                idx = slice(*[None if x is None else E(x) for x in (e.slice.lower, e.slice.upper, e.slice.step)])
+            else:
+                idx = E(e.slice)
+            if not isinstance(base, (str, bytes, tuple, list, dict, range)):
+                self.bad(f, 'a subscript of %s' % type(base).__name__, e)
+            return self.prim(f, e, base.__getitem__, idx)
+        if isinstance(e, (ast.ListComp, ast.SetComp, ast.GeneratorExp, ast.DictComp)):
+            return self.comprehension(e, env, f, m)
+        if isinstance(e, ast.Call):
+            return self.call(e, env, f, m)
+        self.bad(f, 'the expression', e)
+
+    def bind(self, target, value, env, f, m, stmt=None):
+        if isinstance(target, ast.Name):
+            env[target.id] = value
+            return
+        if isinstance(target, (ast.Tuple, ast.List)):
+            if any(isinstance(x, ast.Starred) for x in target.elts):
+                self.bad(f, 'a starred assignment target', target)
+            if isinstance(value, (str, bytes, tuple, list, range)) or isinstance(value, type(iter(()))):
+                vals = list(value)
+            elif isinstance(value, (dict, set, frozenset)):
+                vals = list(value)
+            else:
+                self.bad(f, 'unpacking of %s' % type(value).__name__, target)
+            if len(vals) != len(target.elts):
+                raise CRaise('ValueError', target)
+            for t, v in zip(target.elts, vals):
+                self.bind(t, v, env, f, m, stmt)
+            return
+        if isinstance(target, ast.Attribute):
+            obj = self.ev(target.value, env, f, m)
+            if not isinstance(obj, CObj):
+                self.bad(f, 'an attribute store on %s' % type(obj).__name__, target)
+            meth = self.p.lookup_method(obj.cq, target.attr)
+            if meth is not None and meth.is_property():
+                self.bad(f, 'a store through the property %s' % meth.qual, target)
+            obj.attrs[target.attr] = value
+            self.trace.append(('setattr', stmt if stmt is not None else target, (obj, target.attr, value), f.qual if f is not None else ''))
+            return
+        if isinstance(target, ast.Subscript) and not isinstance(target.slice, ast.Slice):
+            base = self.ev(target.value, env, f, m)
+            if not isinstance(base, (dict, list)):
+                self.bad(f, 'a subscript store on %s' % type(base).__name__, target)
+            self.prim(f, target, base.__setitem__, self.ev(target.slice, env, f, m), value)
+            return
+        self.bad(f, 'the assignment target', target)
+
+    def iterate(self, it, f, node):
+        if isinstance(it, (str, bytes, tuple, list, range, dict, frozenset, set)):
+            return list(it)
+        if type(it).__name__ in ('dict_items', 'dict_keys', 'dict_values', 'enumerate', 'zip', 'reversed', 'list_reverseiterator', 'callable_iterator', 'map'):
+            return list(it)
+        self.bad(f, 'iteration over %s' % type(it).__name__, node)
+
+    def comprehension(self, e, env, f, m):
+        out_list: List[object] = []
+        out_dict: Dict[object, object] = {}
+        scope = dict(env)
+        fq = f.qual if f is not None else ''
+
+        def rec(i):
+            if i == len(e.generators):
+                if isinstance(e, ast.DictComp):
+                    k = self.ev(e.key, scope, f, m)
+                    self.prim(f, e, out_dict.__setitem__, k, self.ev(e.value, scope, f, m))
+                else:
+                    out_list.append(self.ev(e.elt, scope, f, m))
+                return
+            g = e.generators[i]
+            if g.is_async:
+                self.bad(f, 'an async comprehension', e)
+            for item in self.iterate(self.ev(g.iter, scope, f, m), f, g.iter):
+                self.tick(f)
+                self.trace.append(('iter', e, item, fq))
+                self.bind(g.target, item, scope, f, m)
+                ok = True
+                for c in g.ifs:
+                    t = self.truth(f, self.ev(c, scope, f, m), c)
+                    self.trace.append(('test', c, t, fq))
+                    if not t:
+                        ok = False
+                        break
+                if ok:
+                    rec(i + 1)
+
+        rec(0)
+        if isinstance(e, ast.DictComp):
+            return out_dict
+        if isinstance(e, ast.SetComp):
+            return self.prim(f, e, set, out_list)
+        return out_list  # a generator expression is consumed by its (pure) consumer: a list is the same sequence
+
+    def call(self, c: ast.Call, env, f, m):
+        if any(isinstance(a, ast.Starred) for a in c.args) or any(k.arg is None for k in c.keywords):
+            self.bad(f, 'star-arguments', c)
+        fn = c.func
+        E = lambda x: self.ev(x, env, f, m)  # noqa: E731
+        # method of a value
+        if isinstance(fn, ast.Attribute) and self.static_qual(fn, env, f, m) is None:
+            recv = E(fn.value)
+            args = [E(a) for a in c.args]
+            kw = {k.arg: E(k.value) for k in c.keywords}
+            return self.method(recv, fn.attr, args, kw, f, c)
+        callee = E(fn)
+        args = [E(a) for a in c.args]
+        kw = {k.arg: E(k.value) for k in c.keywords}
+        return self.apply(callee, args, kw, f, c)
+
+    def method(self, recv, attr, args, kw, f, node):
+        if isinstance(recv, CObj):
+            return self.apply(self.getattr(recv, attr, f, node), args, kw, f, node)
+        ok = False
+        if isinstance(recv, (str, bytes)):
+            ok = not attr.startswith('_') and hasattr(recv, attr)
+            if attr in ('join',) and args:
+                args = [self.iterate(args[0], f, node)] + args[1:]
+            if attr in ('ljust', 'rjust', 'center', 'zfill', 'expandtabs') and any(isinstance(a, int) and a > 4096 for a in args):
+                ok = False
+        elif isinstance(recv, list):
+            ok = attr in _C_LIST_METHODS
+        elif isinstance(recv, tuple):
+            ok = attr in ('index', 'count')
+        elif isinstance(recv, dict):
+            ok = attr in _C_DICT_METHODS
+        elif isinstance(recv, (set, frozenset)):
+            ok = attr in _C_SET_METHODS and (isinstance(recv, set) or attr not in ('add', 'discard'))
+        elif isinstance(recv, self.re.Pattern):
+            ok = attr in _C_PATTERN_METHODS
+            if attr in ('sub', 'subn') and args and not isinstance(args[0], (str, bytes)):
+                ok = False
+        elif isinstance(recv, self.re.Match):
+            ok = attr in _C_MATCH_METHODS
+        if not ok:
+            self.bad(f, 'the method %s of %s' % (attr, type(recv).__name__), node)
+        if not all(self._plain(a) for a in list(args) + list(kw.values())):
+            self.bad(f, 'a method call with object arguments', node)
+        r = self.prim(f, node, getattr(recv, attr), *args, **kw)
+        if attr == 'finditer':
+            r = list(r)
+        return r
+
+    def _plain(self, v) -> bool:
+        if isinstance(v, (list, tuple, set, frozenset)):
+            return all(self._plain(x) or isinstance(x, CObj) for x in v)
+        if isinstance(v, dict):
+            return all(self._plain(x) or isinstance(x, CObj) for x in v.values())
+        return isinstance(v, _C_VALUE_TYPES) or isinstance(v, (self.re.Pattern, self.re.Match, CObj))
+
+    def apply(self, callee, args, kw, f, node):
+        if isinstance(callee, Func):
+            return self.call_func(callee, args, kw, node)
+        if isinstance(callee, _CBound):
+            return self.call_func(callee.func, [callee.obj] + list(args), kw, node)
+        if isinstance(callee, Class):
+            if callee.qual not in self.p.classes:
+                self.bad(f, 'instantiation of %s' % callee.qual, node)
+            for k in self.p.mro(callee.qual):
+                if k not in self.p.classes and k not in ('builtins.object', 'object'):
+                    self.bad(f, 'instantiation of %s (external base %s)' % (callee.qual, k), node)
+            if self.p.lookup_method(callee.qual, '__new__') is not None:
+                self.bad(f, 'instantiation of %s (__new__)' % callee.qual, node)
+            obj = CObj(callee.qual)
+            init = self.p.lookup_method(callee.qual, '__init__')
+            if init is not None:
+                self.call_func(init, [obj] + list(args), kw, node)
+            elif args or kw:
+                raise CRaise('TypeError', node)
+            return obj
+        if isinstance(callee, tuple) and len(callee) == 2 and callee[0] == 'builtin':
+            b = callee[1]
+            if b == 're.compile' and args and isinstance(args[0], (str, bytes)) and all(isinstance(a, int) for a in args[1:]) \
+                    and all(k == 'flags' and isinstance(v, int) for k, v in kw.items()):
+                return self.prim(f, node, self.re.compile, *args, **kw)
+            if b == 'setattr' and len(args) == 3 and isinstance(args[0], CObj) and isinstance(args[1], str) and not kw:
+                meth = self.p.lookup_method(args[0].cq, args[1])
+                if meth is not None and meth.is_property():
+                    self.bad(f, 'a store through the property %s' % meth.qual, node)
+                args[0].attrs[args[1]] = args[2]
+                self.trace.append(('setattr', node, (args[0], args[1], args[2]), f.qual if f is not None else ''))
+                return None
+            if b == 'getattr' and len(args) in (2, 3) and isinstance(args[0], CObj) and isinstance(args[1], str) and not kw:
+                try:
+                    return self.getattr(args[0], args[1], f, node)
+                except CRaise as ex:
+                    if ex.cls == 'AttributeError' and len(args) == 3:
+                        return args[2]
+                    raise
+            if b == 'hasattr' and len(args) == 2 and isinstance(args[0], CObj) and isinstance(args[1], str) and not kw:
+                try:
+                    self.getattr(args[0], args[1], f, node)
+                    return True
+                except CRaise as ex:
+                    if ex.cls == 'AttributeError':
+                        return False
+                    raise
+            self.bad(f, 'the call of %s' % b, node)
+        if any(callee is b for b in _C_BUILTINS.values()):
+            if not all(self._plain(a) for a in list(args) + list(kw.values())):
+                self.bad(f, 'a builtin applied to objects', node)
+            if callee in (range,) and any(isinstance(a, int) and abs(a) > 10 ** 5 for a in args):
+                self.bad(f, 'a range this large', node)
+            if callee in (sorted, min, max) and kw:
+                self.bad(f, 'a key function', node)
+            r = self.prim(f, node, callee, *args, **kw)
+            if type(r).__name__ in ('enumerate', 'zip', 'reversed', 'list_reverseiterator'):
+                r = list(r)
+            return r
+        self.bad(f, 'the call', node)
+
+    def call_func(self, g: Func, args, kw, node=None):
+        if g.is_async or any(d not in ('property', 'staticmethod', 'classmethod') for d in g.decorators if d != 'property') and not g.is_property():
+            self.bad(g, 'the coroutine / decorated function %s' % g.qual, node)
+        if any(isinstance(n, (ast.Yield, ast.YieldFrom)) for n in walk_no_nested(g.node)):
+            self.bad(g, 'the generator %s' % g.qual, node)
+        a = g.node.args
+        if a.vararg is not None or a.kwarg is not None:
+            self.bad(g, 'the variadic signature of %s' % g.qual, node)
+        pos = [x.arg for x in list(a.posonlyargs) + list(a.args)]
+        if len(args) > len(pos):
+            raise CRaise('TypeError', node)
+        env: Dict[str, object] = dict(zip(pos, args))
+        names = set(pos) | {x.arg for x in a.kwonlyargs}
+        for k, v in kw.items():
+            if k not in names or k in env:
+                raise CRaise('TypeError', node)
+            env[k] = v
+        for nm, d in zip(pos[len(pos) - len(a.defaults):], a.defaults):
+            if nm not in env:
+                env[nm] = self.ev(d, {}, None, g.module)
+        for x, d in zip(a.kwonlyargs, a.kw_defaults):
+            if x.arg not in env and d is not None:
+                env[x.arg] = self.ev(d, {}, None, g.module)
+        if set(env) != names:
+            raise CRaise('TypeError', node)
+        self.depth += 1
+        if self.depth > 12:
+            self.bad(g, 'a call chain this deep', node)
+        try:
+            self.run(g.node.body, env, g)
+        except _CReturn as r:
+            return r.value
+        except (_CContinue, _CBreak):
+            self.bad(g, 'a stray continue/break', node)
+        finally:
+            self.depth -= 1
+        return None
+
+    # ---- statements
+    def run(self, stmts, env, f):
+        m = f.module
+        fq = f.qual
+        for s in stmts:
+            self.tick(f)
+            if isinstance(s, ast.Pass) or (isinstance(s, ast.Expr) and isinstance(s.value, ast.Constant)):
+                continue
+            if isinstance(s, ast.Expr):
+                self.ev(s.value, env, f, m)
+                continue
+            if isinstance(s, ast.Return):
+                raise _CReturn(self.ev(s.value, env, f, m) if s.value is not None else None)
+            if isinstance(s, ast.Assign):
+                v = self.ev(s.value, env, f, m)
+                self.trace.append(('assign', s, v, fq))
+                for t in s.targets:
+                    self.bind(t, v, env, f, m, s)
+                continue
+            if isinstance(s, ast.AnnAssign):
+                if s.value is not None:
+                    v = self.ev(s.value, env, f, m)
+                    self.trace.append(('assign', s, v, fq))
+                    self.bind(s.target, v, env, f, m, s)
+                continue
+            if isinstance(s, ast.AugAssign):
+                op = _C_BINOPS.get(type(s.op))
+                if op is None or not isinstance(s.target, ast.Name):
+                    self.bad(f, 'the augmented assignment', s)
+                cur = self.name(s.target, env, f, m)
+                v = self.ev(s.value, env, f, m)
+                if not (isinstance(cur, _C_VALUE_TYPES) and isinstance(v, _C_VALUE_TYPES)) or isinstance(cur, (list, dict, set)):
+                    self.bad(f, 'the augmented assignment', s)
+                nv = self.prim(f, s, op, cur, v)
+                self.trace.append(('assign', s, nv, fq))
+                env[s.target.id] = nv
+                continue
+            if isinstance(s, ast.If):
+                t = self.truth(f, self.ev(s.test, env, f, m), s.test)
+                self.trace.append(('test', s.test, t, fq))
+                self.run(s.body if t else s.orelse, env, f)
+                continue
+            if isinstance(s, ast.While):
+                broke = False
+                while True:
+                    self.tick(f)
+                    t = self.truth(f, self.ev(s.test, env, f, m), s.test)
+                    if not t:
+                        break
+                    try:
+                        self.run(s.body, env, f)
+                    except _CContinue:
+                        continue
+                    except _CBreak:
+                        broke = True
+                        break
+                if not broke:
+                    self.run(s.orelse, env, f)
+                continue
+            if isinstance(s, ast.For):
+                broke = False
+                for item in self.iterate(self.ev(s.iter, env, f, m), f, s.iter):
+                    self.tick(f)
+                    self.trace.append(('iter', s, item, fq))
+                    self.bind(s.target, item, env, f, m, s)
+                    try:
+                        self.run(s.body, env, f)
+                    except _CContinue:
+                        continue
+                    except _CBreak:
+                        broke = True
+                        break
+                if not broke:
+                    self.run(s.orelse, env, f)
+                continue
+            if isinstance(s, ast.Continue):
+                raise _CContinue()
+            if isinstance(s, ast.Break):
+                raise _CBreak()
+            if isinstance(s, ast.Raise):
+                if s.exc is None:
+                    self.bad(f, 'a bare re-raise', s)
+                ex = s.exc.func if isinstance(s.exc, ast.Call) else s.exc
+                q = self.p.resolve_expr(m, ex, f)
+                raise CRaise((q or short(ex)).rsplit('.', 1)[-1] if (q or '').startswith('builtins.') else (q or short(ex)), s)
+            if isinstance(s, ast.Try):
+                self._try(s, env, f)
+                continue
+            if isinstance(s, ast.Assert):
+                continue
+            self.bad(f, 'the statement %s' % type(s).__name__, s)
+
+    def _try(self, s: ast.Try, env, f):
+        import builtins as _b
+
+        def catches(h, cls: str) -> bool:
+            if h.type is None:
+                return True
+            ts = h.type.elts if isinstance(h.type, ast.Tuple) else [h.type]
+            for t in ts:
+                q = self.p.resolve_expr(f.module, t, f)
+                if q is None:
+                    self.bad(f, 'the handler type', t)
+                if q.startswith('builtins.'):
+                    hb, cb = getattr(_b, q[9:], None), getattr(_b, cls, None)
+                    if isinstance(hb, type) and isinstance(cb, type) and issubclass(cb, hb):
+                        return True
+                    if isinstance(hb, type) and cb is None and hb in (Exception, BaseException):
+                        r = self.p.is_subclass(cls, 'builtins.Exception')
+                        if r is None:
+                            self.bad(f, 'whether %s is caught' % cls, t)
+                        if r:
+                            return True
+                elif cls == q or self.p.is_subclass(cls, q) is True:
+                    return True
+                elif cls in self.p.classes and self.p.is_subclass(cls, q) is None:
+                    self.bad(f, 'whether %s is caught' % cls, t)
+            return False
+
+        try:
+            try:
+                self.run(s.body, env, f)
+            except CRaise as ex:
+                h = next((h for h in s.handlers if catches(h, ex.cls)), None)
+                if h is None:
+                    raise
+                if h.name:
+                    self.bad(f, 'a handler that binds the exception', h)
+                self.run(h.body, env, f)
+            else:
+                self.run(s.orelse, env, f)
+        finally:
+            if s.finalbody:
+                self.run(s.finalbody, env, f)
+
+
+_LOCALS_CACHE: Dict[int, frozenset] = {}
+
+
+def _locals_of(f: Func) -> frozenset:
+    k = id(f.node)
+    if k not in _LOCALS_CACHE:
+        from ..model import local_names
+        _LOCALS_CACHE[k] = frozenset(local_names(f))
+    return _LOCALS_CACHE[k]
